@@ -429,6 +429,33 @@ func checkAuth(c authCase, o *pbt.Rec) pbt.Verdict {
 		}
 		allowedStrings := map[string]bool{}
 		scalarStrings(ref.Plain(expected.Data), allowedStrings)
+		// values of fields that are not denied and not below a denied position are not secrets,
+		// even when null propagation removed them from the expected data: an entity reachable
+		// through a denied field can also be selected directly, and a deferred payload may
+		// still deliver allowed fields of a parent the initial payload had to null
+		denied := map[string]bool{}
+		for _, p := range expected.DeniedPaths {
+			denied[ref.Canon(p)] = true
+		}
+		var outside func(v any, path []any)
+		outside = func(v any, path []any) {
+			if denied[ref.Canon(path)] {
+				return
+			}
+			switch x := v.(type) {
+			case map[string]any:
+				for k, c := range x {
+					outside(c, append(append([]any{}, path...), k))
+				}
+			case []any:
+				for i, c := range x {
+					outside(c, append(append([]any{}, path...), i))
+				}
+			case string:
+				allowedStrings[x] = true
+			}
+		}
+		outside(plainUnauth, []any{})
 		all := strings.Join(frames, "\n")
 		for s := range leaked {
 			if len(s) < 8 || allowedStrings[s] {
